@@ -35,10 +35,12 @@ pub fn respond(line: &str) -> String {
         "loadasm" => disas::loadasm(rest),
         "loadasmw" => disas::loadasmw(rest),
         "lift" => lift::lift(rest),
+        "liftv" => lift::liftv(rest),
         "idmut" => reflect::idmut(rest),
         "conv" => crate::glue_operand::conv(rest),
         "unwrapx" => crate::glue_operand::unwrapx(rest),
         "loadbin" => load::loadbin(rest),
+        "loadtwice" => load::loadtwice(rest),
         _ => "bad-request".to_string(),
     }
 }
